@@ -75,7 +75,7 @@ pub struct LoopHooks {
 pub async fn main_loop(
     mut rx: tokio::sync::mpsc::Receiver<TimedMessage>,
     app_dec: Arc<Mutex<Jet1090>>,
-    reference: Option<Position>,
+    references: BTreeMap<u64, Option<Position>>,
     mut hooks: LoopHooks,
 ) {
     let aircraftdb: BTreeMap<String, crate::aircraftdb::Aircraft> = BTreeMap::new();
@@ -95,14 +95,17 @@ pub async fn main_loop(
             match &mut message.df {
                 ExtendedSquitterADSB(adsb) => match adsb.message {
                     ME::BDS05(_) | ME::BDS06(_) => {
-                        let mut reference = reference;
+                        // main.rs:517-523: the reference of the sensor that heard it first
+                        let serial = msg.metadata.first().map(|meta| meta.serial).unwrap();
+                        let mut reference = references[&serial];
                         decode_position(&mut adsb.message, msg.timestamp, &adsb.icao24, &mut aircraft, &mut reference, &None);
                     }
                     _ => {}
                 },
                 ExtendedSquitterTisB { cf, .. } => match cf.me {
                     ME::BDS05(_) | ME::BDS06(_) => {
-                        let mut reference = reference;
+                        let serial = msg.metadata.first().map(|meta| meta.serial).unwrap();
+                        let mut reference = references[&serial];
                         decode_position(&mut cf.me, msg.timestamp, &cf.aa, &mut aircraft, &mut reference, &None)
                     }
                     _ => {}
